@@ -14,9 +14,11 @@ def run(tier: str, seed: int):
                 + list(F.fam_faults(4, 4, max_faults=1, reqs='sinks', cofs=(True,))) + list(F.fam_variants(3)))
         serial = list(F.fam_shapes(1, 3, batch=1)) + list(F.fam_faults(1, 3, max_faults=2, kinds=('raise',), perms=True, cofs=(True,)))
         rule = 'n<=4 shapes x requested x pre-cached; n<=3 x all label permutations x fault sets <=2; n=4 single faults; every completion order (batch<=2); real SerialRunner results_map via spy'
+        e3c = list(F.fam_e3(list(F.fam_faults(1, 3, cofs=(True,))) + list(F.fam_shapes(1, 3)), workers=(2,), liveness=False))
     else:
         cfgs = (list(F.fam_shapes(1, 5, batch=2)) + list(F.fam_faults(1, 4, max_faults=2, perms=True, cofs=(True,), reqs='sinks'))
                 + list(F.fam_faults(5, 5, max_faults=1, reqs='sinks', cofs=(True,))) + list(F.fam_variants(3, batch=3)))
         serial = list(F.fam_shapes(1, 4, batch=1)) + list(F.fam_faults(1, 4, max_faults=2, kinds=('raise',), perms=True, cofs=(True,), reqs='sinks'))
         rule = 'n<=5 shapes; n<=4 x label permutations x fault sets <=2; n=5 single faults'
-    return run_e2_property('C17', tier, seed, cfgs, serial_configs=serial, rule=rule, assumptions=ASSUME)
+        e3c = list(F.fam_e3(list(F.fam_faults(1, 3, max_faults=2, cofs=(True,), perms=True)) + list(F.fam_shapes(1, 3)), workers=(1, 2), liveness=False)) + list(F.fam_e3(F.fam_faults(4, 4, cofs=(True,), reqs='sinks'), workers=(2,), liveness=False))
+    return run_e2_property('C17', tier, seed, cfgs, serial_configs=serial, e3_configs=e3c, rule=rule, assumptions=ASSUME)
